@@ -5,9 +5,10 @@ CONSTANTS
   CheckPeriod = 5
   SendsPerSec = 15
   Slack = 1
+  MaxFlight = 1
   D = 0
 INIT Init
-NEXT NextCfgs
+NEXT NextCfgsQ
 VIEW viewE
 INVARIANT TypeOK
 INVARIANT WithdrawnOnDisconnect
@@ -25,5 +26,6 @@ PROPERTY SilentWires
 PROPERTY NeverDropsLive
 PROPERTY NoSpuriousWithdrawal
 PROPERTY ConfigConstant
+PROPERTY LateNeverResurrects
 INVARIANT HoldDownEnds
 CHECK_DEADLOCK FALSE
